@@ -112,13 +112,30 @@ func fuzzLoad(target string, text []byte) string {
 				writeJSON(paths[k], fuzzBase(k))
 			}
 		}
-		return vh.Guard(func() {
-			bfe_route.LoadServerDataConf(paths["host"], paths["vip"], paths["route"], paths["cluster"])
-		})
+		var sdc *bfe_route.ServerDataConf
+		if p := vh.Guard(func() {
+			sdc, _ = bfe_route.LoadServerDataConf(paths["host"], paths["vip"], paths["route"], paths["cluster"])
+		}); p != "" {
+			return p
+		}
+		if sdc != nil {
+			return useSDC(sdc, dir)
+		}
+		return ""
 	}
 	p := filepath.Join(dir, target+".data")
 	writeRaw(p, text)
-	return vh.Guard(func() { loaders[target](p) })
+	var err error
+	if pn := vh.Guard(func() { err = loaders[target](p) }); pn != "" {
+		return pn
+	}
+	if err == nil && (target == "gslb" || target == "ctable") {
+		r := result{OK: true}
+		if useWithCounterpart(&r, target, p, dir, "fuzz", nil) {
+			return r.Fails[0].Detail
+		}
+	}
+	return ""
 }
 
 func confFuzz() {
